@@ -69,8 +69,16 @@ CLAIMED = {
 
 NOT_YET = "not claimed"
 
+def rules():
+    """rule texts written by the checks themselves (tools/capture_rules.py copies them from evidence files)"""
+    try:
+        return json.load(open('/verif/tools/rules.json'))
+    except Exception:
+        return {}
+
 def main():
     props = [json.loads(l) for l in open('/verif/properties.jsonl')]
+    R = rules()
     hook_commits = subprocess.run(['git','-C','/repo','log','--format=%h','--grep=cfg(seed_verif)'],capture_output=True,text=True).stdout.split()
     checks = []
     na = []
@@ -78,6 +86,11 @@ def main():
         i = p['id']
         if i in CLAIMED:
             kind, what, tech = CLAIMED[i]
+            r = R.get(i, {})
+            if r.get("quick"):
+                what = "quick tier: " + r["quick"]
+                if r.get("thorough"):
+                    what += " || thorough tier: " + r["thorough"]
             checks.append({
                 "property_id": i,
                 "quick_cmd": f"./check {i} quick",
@@ -100,7 +113,7 @@ def main():
         "setup_cmd": "cd /verif && ./setup.sh",
         "hooks": {
             "guard": "seed_verif",
-            "enable": "RUSTFLAGS='--cfg seed_verif' CARGO_TARGET_DIR=/verif/.build/subject cargo build --release --offline   (run in /repo; done by every check)",
+            "enable": "RUSTFLAGS='--cfg seed_verif -C overflow-checks=on' CARGO_TARGET_DIR=/verif/.build/subject cargo build --release --offline   (run in /repo; done by every check)",
             "baseline_off_cmd": "cd /repo && cargo test --workspace --no-fail-fast --offline",
             "source_commits": hook_commits,
             "add_only": True,
